@@ -19,6 +19,7 @@ import (
 	"strings"
 	"testing"
 	"fmt"
+	"io"
 	"testing/synctest"
 	"time"
 
@@ -141,7 +142,30 @@ func vfC20RunSend(t *testing.T, c *vfc20.Case) *vfc20.Run {
 			cc.Mode = "bisync"
 		}
 		ro := vfC20Output(&cc, tg, c.Parallel)
-		err := ro.SendRdb(context.Background(), &vfC04Reader{r: bufio.NewReaderSize(bytes.NewReader(data), 4096), size: int64(len(data))})
+		var err error
+		if c.Gate > 0 && c.Gate < len(data) {
+			pr, pw := io.Pipe()
+			done := make(chan error, 1)
+			go func() {
+				done <- ro.SendRdb(context.Background(), &vfC04Reader{r: bufio.NewReaderSize(pr, 4096), size: int64(len(data))})
+			}()
+			w1 := make(chan struct{})
+			go func() { pw.Write(data[:c.Gate]); close(w1) }()
+			finished := false
+			select {
+			case <-w1:
+			case err = <-done:
+				finished = true
+			}
+			if !finished {
+				synctest.Wait() // parser, distributor and workers have done all they can with the first part
+				go func() { pw.Write(data[c.Gate:]); pw.Close() }()
+				err = <-done
+			}
+			pr.Close()
+		} else {
+			err = ro.SendRdb(context.Background(), &vfC04Reader{r: bufio.NewReaderSize(bytes.NewReader(data), 4096), size: int64(len(data))})
+		}
 		en, key := vfc20.ErrEnum(err)
 		res.Final, res.FailKey = en, key
 		if err != nil {
@@ -179,7 +203,15 @@ func TestVerifC20Syncer(t *testing.T) {
 			}
 			if json.Unmarshal(b, &rp) == nil && rp.Replay.Case != "" {
 				var c vfc20.Case
-				if json.Unmarshal([]byte(rp.Replay.Case), &c) == nil && c.Mode != "plain" && c.Mode != "" {
+				if json.Unmarshal([]byte(rp.Replay.Case), &c) == nil && (c.Mode == "send" || c.Mode == "sendbisync") {
+					for rep := 0; rep < 50; rep++ {
+						r := vfC20RunSend(t, &c)
+						if r.LoadErr == nil {
+							vfc20.CheckParallel(s, &c, r)
+							vfc20.Stats(s, &c, r, "replay")
+						}
+					}
+				} else if json.Unmarshal([]byte(rp.Replay.Case), &c) == nil && c.Mode != "plain" && c.Mode != "" {
 					run(&c, "replay")
 				}
 			}
@@ -250,6 +282,35 @@ func TestVerifC20Syncer(t *testing.T) {
 			}
 			vfc20.CheckWindow(s, c, r)
 			s.Count("case_window")
+		}
+	}
+	// a slow source: the snapshot arrives in two parts with quiescence in between, at EVERY byte offset;
+	// split values, tagged keys ({{k0}} loses one brace pair per rewriting), 1-2 workers
+	for _, ht := range []bool{true, false} {
+		for _, pol := range []string{"ignore", "replace", "error"} {
+			for _, par := range []int{1, 2} {
+				base := vfc20.Case{Mode: "send", Pol: pol, Thr: 1, MaxBulk: 1 << 29, Ver: "7.0.0", Parallel: par, HashTag: ht,
+					KVs: []vfc20.KVSpec{
+						{Key: vfutil.HexS("{{k0}}"), Type: 4, Items: []string{vfutil.HexS("f0"), vfutil.HexS("a"), vfutil.HexS("f1"), vfutil.HexS("b"), vfutil.HexS("f2"), vfutil.HexS("c")}},
+						{Key: vfutil.HexS("{k1"), Type: 4, Exp: 2, Items: []string{vfutil.HexS("f0"), vfutil.HexS("d"), vfutil.HexS("f1"), vfutil.HexS("e")}},
+						{DB: 1, Key: vfutil.HexS("k2{t}"), Type: 4, Items: []string{vfutil.HexS("f0"), vfutil.HexS("g"), vfutil.HexS("f1"), vfutil.HexS("h")}},
+					}}
+				if pol != "replace" || par == 1 {
+					base.Pre = []vfc20.Pre{{Key: vfutil.Hex(base.TKey([]byte("{k1"))), Kind: "hash"}}
+				}
+				n := len(vfc20.BuildRDB(base.KVList(), vfc20.Opts{Aux: true}))
+				step := vfutil.Scale(2, 1)
+				for g := 40; g < n-9; g += step {
+					c := base
+					c.Gate = g
+					r := vfC20RunSend(t, &c)
+					if r.LoadErr != nil {
+						continue
+					}
+					vfc20.CheckParallel(s, &c, r)
+					s.Count("case_send-gated")
+				}
+			}
 		}
 	}
 	// the real SendRdb with several workers under every policy, split values included
